@@ -44,6 +44,8 @@ func c02File(c *C02Case) *File {
 		body = []*Stmt{{K: "dowhile", Do: &DoWh{Cond: c.Expr, Body: &Block{Stmts: []*Stmt{yes}}}}}
 	case 7:
 		body = []*Stmt{{K: "while", While: &While{Cond: c.Expr, Body: &Block{Stmts: []*Stmt{yes}}}}}
+	case 11: // an empty loop body: a true E re-tests E (for ever, the state cannot change), a false E goes on
+		body = []*Stmt{{K: "while", While: &While{Cond: c.Expr, Body: &Block{Stmts: []*Stmt{}}}}, no}
 	case 8, 9, 10:
 		// chains with several elif branches; E is the first / the second of two elifs, or an elif with an empty block
 		pre := eLeaf(&Leaf{Kind: "flag", Operand: []string{"FLAG_PRE"}})
@@ -128,6 +130,11 @@ func c02Expected(ctx int, value bool) string {
 		o = Outcome{Trace: []string{"no", "after"}, Finish: "Return"}
 		if value {
 			o.Trace[0] = "yes"
+		}
+	case 11:
+		o = Outcome{Trace: []string{"no"}, Finish: "Return"}
+		if value {
+			o = Outcome{Finish: "SilentLoop"}
 		}
 	default: // 10: the elif with E has an empty block; FLAG_Q set: E true -> nothing, else q
 		o = Outcome{Trace: []string{"q", "after"}, Finish: "Return"}
@@ -335,7 +342,12 @@ func checkC02(c *C02Case) *Violation {
 				filtered.Trace = append(filtered.Trace, ev)
 			}
 		}
-		if filtered.Finish == "CommandLimit" {
+		if c.Ctx == 11 && want {
+			// for ever: silently, or - when leaves run AutoVar commands - until the horizon
+			if len(filtered.Trace) != 0 || (filtered.Finish != "SilentLoop" && filtered.Finish != "CommandLimit") {
+				panic(fmt.Sprintf("harness self-check: reference interpreter disagrees with truth table\n%s\nassignment %v want %v ref %s", src, truth, want, ro))
+			}
+		} else if filtered.Finish == "CommandLimit" {
 			// loop contexts hit the horizon earlier when leaves contribute events: compare the prefix only
 			exp := c02Expected(c.Ctx, want)
 			if !strings.HasPrefix(exp, strings.Join(filtered.Trace, " ; ")) || !strings.HasSuffix(exp, "CommandLimit") {
@@ -398,6 +410,8 @@ func c02Leaf(t *rapid.T, i int) *Leaf {
 				l.Value = []string{fmt.Sprintf("SYM_%d", v)}
 			case 2:
 				l.Value = []string{fmt.Sprintf("-%d", v+1)}
+			case 3:
+				l.Value = []string{rapid.SampledFrom([]string{"TRUE", "FALSE", "true", "false"}).Draw(t, "boolval")} // the README's checkitem(..) == TRUE
 			default:
 				l.Value = []string{fmt.Sprint(v)}
 			}
@@ -454,7 +468,7 @@ func genC02(t *rapid.T) *C02Case {
 	n := rapid.IntRange(1, pick(8, 12)).Draw(t, "nleaves")
 	next := 0
 	return &C02Case{
-		Ctx:  rapid.IntRange(0, 10).Draw(t, "ctx"),
+		Ctx:  rapid.IntRange(0, 11).Draw(t, "ctx"),
 		Expr: c02Expr(t, n, &next),
 		Seed: rapid.Uint64().Draw(t, "seed"),
 	}
@@ -553,7 +567,7 @@ func TestC02_Enum(t *testing.T) {
 				return
 			}
 			count++
-			c := &C02Case{Ctx: idx % 11, Expr: e, Seed: uint64(idx)}
+			c := &C02Case{Ctx: idx % 12, Expr: e, Seed: uint64(idx)}
 			// the enumerated trees share sub-trees; checkC02 does not mutate them
 			if !runCase(t, "C02", "TestC02_Truth", c, checkC02, c02Src) {
 				t.Fail()
